@@ -84,6 +84,50 @@ def embedded (S : Strat ι α) (inputs : List ι) : α := inputs.foldl S.merge S
 
 end Keyed
 
+/-! ## `MutexSink<Aggregate<T>>`: one shared accumulator behind `Arc<Mutex<_>>`, any number of handles -/
+
+inductive MOp (ι : Type) where
+  /-- `RootSink::merge` through any handle, or the drop of a merge-on-drop guard: lock, merge, unlock -/
+  | merge (e : ι)
+  /-- `CloseValue::close(self)` of any handle: lock, `mem::take` the accumulator, close what was taken;
+  the shared state is left `Default` for the handles that remain -/
+  | close
+  /-- `Clone` of a handle (a guard owns one) -/
+  | clone
+  /-- drop of a handle without closing it -/
+  | dropHandle
+  deriving Repr
+
+structure MState (α : Type) where
+  shared : α
+  /-- live handles (the `Arc` strong count); a model parameter no step's result depends on -/
+  handles : Nat := 1
+  /-- what the closes returned, oldest first -/
+  emitted : List α := []
+
+def mstep {ι α : Type} (S : Strat ι α) (s : MState α) : MOp ι → MState α
+  | .merge e => { s with shared := S.merge s.shared e }
+  | .close => { shared := S.empty, handles := s.handles - 1, emitted := s.emitted ++ [s.shared] }
+  | .clone => { s with handles := s.handles + 1 }
+  | .dropHandle => { s with handles := s.handles - 1 }
+
+def mrun {ι α : Type} (S : Strat ι α) (s : MState α) (ops : List (MOp ι)) : MState α := ops.foldl (mstep S) s
+
+/-- the *rejected* variant (seeded change C10-j): `Arc::try_unwrap(..).unwrap_or_default()` — the
+accumulator is only obtained when this is the last handle, otherwise a fresh default is closed and
+the shared one stays behind -/
+def mstepUnwrap {ι α : Type} (S : Strat ι α) (s : MState α) : MOp ι → MState α
+  | .close =>
+    if s.handles = 1 then { shared := S.empty, handles := 0, emitted := s.emitted ++ [s.shared] }
+    else { s with handles := s.handles - 1, emitted := s.emitted ++ [S.empty] }
+  | op => mstep S s op
+
+/-- a mutex-shared aggregate seen as a flushable key-less sink -/
+def MOp.toOp {ι : Type} : MOp ι → Option (Op ι)
+  | .merge e => some (.merge e)
+  | .close => some .flush
+  | _ => none
+
 /-! ## `TeeSink<A, B>` over two sinks given by their step functions -/
 
 def teeStep {σ τ ι : Type} (stepA : σ → Op ι → σ) (stepB : τ → Op ι → τ) (s : σ × τ) (op : Op ι) : σ × τ :=
